@@ -163,6 +163,18 @@ Theorem C09_source_inbound_pipeline_never_panics :
 Proof. exact source_inbound_pipeline_never_panics. Qed.
 Print Assumptions C09_source_inbound_pipeline_never_panics.
 
+(* ... and so does the pipeline FROM THE WIRE BYTES (P_PipelineBytes.v): the front end's ReadFromBytes oracle instantiated with
+   the tokenizer / tree-building model XmlTok.read_root ([reader_with junk]: read_root's answer; beside an error the arbitrary
+   root [junk s] a failed read leaves in the document).  Every byte string, every behaviour of the remaining oracles. *)
+From V Require Import XmlTok P_PipelineBytes.
+Theorem C09_source_inbound_pipeline_from_bytes_never_panics :
+  forall inflate rt_ok dsig rsa_oaep rsa_pkcs1 gcm_open cbc_decrypt (sha1_hex : string -> string) parse_cert cfg kc venc now junk enc,
+    exists r,
+      G_ValidateEncodedResponse (src_parse inflate (reader_with junk) rt_ok cfg) dsig
+        (src_decrypt_all inflate (reader_with junk) rt_ok rsa_oaep rsa_pkcs1 gcm_open cbc_decrypt parse_cert cfg kc venc now) cfg now enc = PVal r.
+Proof. exact source_inbound_pipeline_from_bytes_never_panics. Qed.
+Print Assumptions C09_source_inbound_pipeline_from_bytes_never_panics.
+
 (* The byte -> token -> tree step is in the model (XmlTok.v: xml.Decoder.RawToken as etree configures it, etree's readFrom).
    [raw_tokens] and [read_tree] are total functions into [res], so "Ok or Err for every byte string" holds by typing (the
    first two conjuncts say no more than that, except that the tokenizer's only error is [syntax_error]).  What is NOT by
